@@ -187,6 +187,15 @@ def run_dsop(w, s):
             real = lambda: -ds
             for k in keys:
                 per_var[k] = (lambda a: -a)
+    elif what == "ds_op_ds" and s.get("other_reduced") and s["other_reduced"]["dim"] in m.used():
+        # the other operand is a reduction of this dataset: its variables are the reduced (possibly 0-d) variables
+        f = getattr(operator, s["fn"])
+        rd, rfn = s["other_reduced"]["dim"], s["other_reduced"]["fn"]
+        if any(len(v_["labels"]) == 0 for v_ in m.dims.values()):
+            raise Skip("zero-length axes in Dataset-wide arithmetic are not asserted (DESIGN section 8)")
+        real = lambda: f(ds, getattr(ds, rfn)(axis=rd))
+        for k in keys:
+            per_var[k] = (lambda a, k=k: f(a, getattr(a, rfn)(axis=rd)) if rd in m.vars[k]["dims"] else f(a, a))
     elif what == "ds_op_ds":
         f = getattr(operator, s["fn"])
         if m.unused:
